@@ -163,9 +163,50 @@ def r4(ctx):
         ctx.missing(P, rule, "verify_tree: two climbing loops", "found %d" % n)
 
 
-RULES = [r1, r2, r2b, r3, r4]
+def r5(ctx):
+    """writer and reader connect an upgrade to the existing tree from the same place.  The writer
+    (upgrade_proof / additional_upgrade_proof) climbs from the last leaf the requester already has
+    (`from - 2`) and collects the right-hand siblings; that leaf lies under the requester's LAST root,
+    so the reader (verify_upgrade) must start its climb — and, after the loop, the walk over the
+    additional nodes — at the last root of the changeset.  Starting at any other root consumes the
+    proof's nodes at the wrong positions: honest upgrades of trees with more than one root are refused."""
+    rule = "C03.R5"
+    SEEK = "flat_tree::Iterator::seek"
+    fv = ctx.fn(VERIFY_UPGRADE)
+    if need(ctx, P, rule, VERIFY_UPGRADE, fv):
+        sk = sites(fv, SEEK)
+        if need(ctx, P, rule, "verify_upgrade: iter.seek sites", sk):
+            def last_root(t):
+                t = unwrap_ovf(strip(t))
+                if not (t[0] == "field" and t[2] == "index"):
+                    return False
+                e = unwrap_ovf(strip(t[1]))
+                if e[0] == "call" and e[2].split("::")[-1] == "last" and e[3] and path_of(strip(e[3][0])) == "changeset.roots":
+                    return True
+                if e[0] == "call" and e[2].split("::")[-1] == "index" and len(e[3]) == 2 and path_of(strip(e[3][0])) == "changeset.roots":
+                    ix = unwrap_ovf(e[3][1])
+                    return ix[0] == "bin" and ix[1] == "Sub" and ix[2][0] == "len" and path_of(strip(ix[2][1])) == "changeset.roots" and term_is_lit(ix[3], 1)
+                return False
+            bad = [s for s in sk if not last_root(fv.arg_origin(s, 1))]
+            ctx.check(P, rule, "the reader connects an upgrade starting at the last root it has", len(sk) >= 2 and not bad, "%d seek sites, each to the index of changeset.roots' last element" % len(sk),
+                      "verify_upgrade seeks to %s: the climb that merges the existing roots (or the walk over the additional nodes) does not start at the last root, while the writer's proof is built from the last leaf of the requester's tree" % [term_str(fv.arg_origin(s, 1))[:70] for s in bad],
+                      [site_desc(fv, s) for s in bad], key="C03|C03.R5|verify_upgrade|climb start")
+    for nm in (MT + "::upgrade_proof", MT + "::additional_upgrade_proof"):
+        fw = ctx.fn(nm)
+        if not need(ctx, P, rule, nm, fw):
+            continue
+        sk = sites(fw, SEEK)
+        good = bool(sk)
+        for s in sk:
+            a = unwrap_ovf(strip(fw.arg_origin(s, 1)))
+            good = good and a[0] == "bin" and a[1] == "Sub" and strip(a[2]) == ("param", "from") and term_is_lit(a[3], 2)
+        ctx.check(P, rule, "%s connects from the requester's last leaf" % nm.split("::")[-1], good, "iter.seek(from - 2)", "%s seeks to %s" % (nm.split("::")[-1], [term_str(fw.arg_origin(s, 1))[:60] for s in sk]),
+                  key="C03|C03.R5|%s|climb start" % nm.split("::")[-1])
+
+
+RULES = [r1, r2, r2b, r3, r4, r5]
 EXPLANATION = ("C03 (honest proofs accepted, replicas converge): acceptance and convergence depend on flat-tree arithmetic that no structural rule captures; decided narrowly: create_proof reads the value for "
                "the proof's own block index, returns Ok(None) without building a proof when that block is not held, and passes request and proof parts through unchanged (R1); byte_offset_in_changeset sums "
-               "root lengths over the same root list in which it searched the position, and its panic-capable constructs are discharged (R2); sibling agreement: upgrade_proof / additional_upgrade_proof share branch conditions and flat-tree navigation except for the sub-proof inclusion, and verify_tree's two climbing loops are the same walk (R3); writer (block_and_seek_proof, seek_proof) and reader (verify_tree) climb sibling-then-parent once per level, the reader shifting iter.sibling() and recomputing at iter.parent() (R4).")
+               "root lengths over the same root list in which it searched the position, and its panic-capable constructs are discharged (R2); sibling agreement: upgrade_proof / additional_upgrade_proof share branch conditions and flat-tree navigation except for the sub-proof inclusion, and verify_tree's two climbing loops are the same walk (R3); writer (block_and_seek_proof, seek_proof) and reader (verify_tree) climb sibling-then-parent once per level, the reader shifting iter.sibling() and recomputing at iter.parent() (R4); writer and reader connect an upgrade to the existing tree from the same place — the writer from the requester's last leaf (from - 2), the reader from the last root of the changeset (R5).")
 NOT_DECIDED = ("that any honest proof verifies; agreement of node counts with missing_nodes; partial upgrades; convergence of lengths and bytes; request orders; replica reopen — the bulk of the property is not decided statically.")
 ASSUMPTIONS = ["flat_tree index arithmetic is correct"]
